@@ -282,6 +282,19 @@ def _strip_comments(src):
     return "".join(out)
 
 
+def _import_closure(src):
+    """Files of this project reachable from `src` through `import PhononModel.…` lines."""
+    seen, todo = set(), [src]
+    while todo:
+        f = todo.pop()
+        if f in seen or not os.path.exists(f):
+            continue
+        seen.add(f)
+        for m in re.findall(r"^import\s+(PhononModel(?:\.\S+)?)", open(f).read(), re.M):
+            todo.append(os.path.join(LEAN_DIR, *m.split(".")) + ".lean")
+    return seen
+
+
 def lean_grep_forbidden(files=None):
     hits = []
     for root, _, fs in os.walk(os.path.join(LEAN_DIR, "PhononModel")):
@@ -322,7 +335,7 @@ def lean_audit(prop_id, extra_modules=()):
     for m in re.finditer(r"'([^']+)' does not depend on any axioms", text):
         res["theorems"][m.group(1)] = []
     res["declared"] = re.findall(r"^#print axioms\s+(\S+)", _strip_comments(open(src).read()), re.M)
-    res["forbidden_hits"] = lean_grep_forbidden()
+    res["forbidden_hits"] = lean_grep_forbidden(_import_closure(src))
     if "sorry" in text and "declaration uses 'sorry'" in text:
         res["forbidden_hits"].append("declaration uses 'sorry' (elaborator warning)")
     return res
